@@ -3,6 +3,7 @@ package main
 // SMT solver pipe: one long-lived process per worker, SMT-LIB2 text protocol.
 
 import (
+	"os"
 	"bufio"
 	"fmt"
 	"io"
@@ -35,8 +36,14 @@ type Solver struct {
 	SolveTime time.Duration
 	Errors    []string
 	timeoutMs int
+	Retries   int
 	log       io.Writer
 	dead      bool
+	// live transcript (declarations and assertions still in force), for handing a query to the fallback solver
+	live  []string
+	marks []int
+	fb    *Solver
+	Fallbacks int
 }
 
 func NewSolver(kind string, timeoutMs int) (*Solver, error) {
@@ -71,6 +78,10 @@ func NewSolver(kind string, timeoutMs int) (*Solver, error) {
 }
 
 func (s *Solver) Close() {
+	if s.fb != nil {
+		s.fb.Close()
+		s.fb = nil
+	}
 	if s.cmd != nil {
 		s.in.Close()
 		s.cmd.Process.Kill()
@@ -100,6 +111,53 @@ func (s *Solver) send(line string) {
 	}
 	io.WriteString(s.in, line)
 	io.WriteString(s.in, "\n")
+	switch {
+	case line == "(reset)":
+		s.live, s.marks = s.live[:0], s.marks[:0]
+	case line == "(push 1)":
+		s.marks = append(s.marks, len(s.live))
+	case line == "(pop 1)":
+		if n := len(s.marks); n > 0 {
+			s.live = s.live[:s.marks[n-1]]
+			s.marks = s.marks[:n-1]
+		}
+	case strings.HasPrefix(line, "(declare-") || strings.HasPrefix(line, "(assert ") || strings.HasPrefix(line, "(define-"):
+		s.live = append(s.live, line)
+	}
+}
+
+// fallback decides the current assertion stack with the other z3 (5.x digests some sequence problems that 4.8 does not,
+// and vice versa). The verdict of either solver is taken; both must stay silent for "unknown".
+func (s *Solver) fallback(wantModel bool) (SatResult, map[string]ModelVal) {
+	if s.kind != "z3" {
+		return Unknown, nil
+	}
+	if s.fb == nil || s.fb.dead {
+		if s.fb != nil {
+			s.fb.Close()
+		}
+		fb, err := NewSolver("z3-new", s.timeoutMs)
+		if err != nil {
+			return Unknown, nil
+		}
+		s.fb = fb
+	}
+	fb := s.fb
+	fb.Reset(s.ts)
+	fb.decl, fb.declUF = s.decl, s.declUF
+	for _, l := range s.live {
+		fb.send(l)
+	}
+	r := fb.checkSat()
+	s.SolveTime += fb.SolveTime
+	fb.SolveTime = 0
+	s.Fallbacks++
+	var m map[string]ModelVal
+	if r == Sat && wantModel {
+		m = fb.getModel()
+	}
+	fb.decl, fb.declUF = map[string]bool{}, map[string]bool{}
+	return r, m
 }
 
 // Reset clears all assertions and declarations; binds the solver to a (new) term store.
@@ -241,7 +299,48 @@ func (s *Solver) Check(extra []*Term, wantModel bool) (SatResult, map[string]Mod
 	for _, e := range extra {
 		s.send("(assert " + s.ts.Print(e) + ")")
 	}
+	tq := time.Now()
+	// first attempt with a soft budget; on "unknown" the other z3 gets the full budget, then this one four times as much
+	soft := s.timeoutMs
+	if s.kind == "z3" && soft > 15000 {
+		soft = 15000
+		s.send(fmt.Sprintf("(set-option :timeout %d)", soft))
+	}
 	r := s.checkSat()
+	if soft != s.timeoutMs && !s.dead {
+		s.send(fmt.Sprintf("(set-option :timeout %d)", s.timeoutMs))
+	}
+	if os.Getenv("GOSX_QLOG") != "" && time.Since(tq) > time.Second {
+		d := ""
+		for _, e := range extra {
+			p := s.ts.Print(e)
+			if len(p) > 300 {
+				p = p[:300]
+			}
+			d += " " + p
+		}
+		fmt.Fprintf(os.Stderr, "QLOG %.1fs %v%s\n", time.Since(tq).Seconds(), r, d)
+	}
+	if r == Unknown && s.kind == "z3" {
+		if r2, m2 := s.fallback(wantModel); r2 != Unknown {
+			if !s.dead {
+				s.send("(pop 1)")
+			}
+			return r2, m2
+		}
+	}
+	if r == Unknown && !s.dead && s.kind != "cvc5" {
+		// a timeout under load is not a verdict: one more attempt with four times the budget
+		saved := s.timeoutMs
+		s.timeoutMs = 4 * saved
+		s.send(fmt.Sprintf("(set-option :timeout %d)", s.timeoutMs))
+		r = s.checkSat()
+		s.timeoutMs = saved
+		if !s.dead {
+			s.send(fmt.Sprintf("(set-option :timeout %d)", saved))
+		}
+		s.Retries++
+	}
 	var model map[string]ModelVal
 	if r == Sat && wantModel {
 		model = s.getModel()
